@@ -267,6 +267,11 @@ PPrimary(ts) ==
            IF Failed(r) \/ Hd(r.r) # "ELSE" THEN Err(ts) ELSE
            LET e == POr(Tail(r.r)) IN
            IF Failed(e) \/ Hd(e.r) # "END" THEN Err(ts) ELSE [t |-> CaseE(c.t, r.t, e.t), r |-> Tail(e.r)]
+    ELSE IF h = "CAST"        \* the function form of a cast, CAST ( x AS type ): the serialisers print casts this way
+      THEN IF Hd(Tail(ts)) # "(" THEN Err(ts) ELSE
+           LET e == POr(Tail(Tail(ts))) IN
+           IF Failed(e) \/ Hd(e.r) # "AS" \/ Len(e.r) < 3 \/ e.r[3] # ")" THEN Err(ts)
+           ELSE [t |-> CastE(e.t, e.r[2]), r |-> Tail(Tail(Tail(e.r)))]
     ELSE IF h = "NULL" THEN [t |-> NullLit, r |-> Tail(ts)]
     ELSE IF h \in Numbers THEN [t |-> Lit(h, IF h = "2.5" THEN "float" ELSE "int"), r |-> Tail(ts)]
     ELSE IF h # "<eof>" /\ IsStr(h) THEN [t |-> Lit(SubSeq(h, 2, Len(h) - 1), "string"), r |-> Tail(ts)]
